@@ -407,6 +407,46 @@ func runC03(c *Ctx) error {
 			c.Rep.Violate(Violation{Kind: "crash", Cut: "no-escape", Input: k, Impl: verdict, Oracle: "returns to the host with values or a staged error"})
 		}
 	}
+	// terminating programs: the loops that run inside one instruction (container iterators, key-list maintenance,
+	// printing, string building) are Go loops that no instruction budget interrupts - every map kind is ranged after
+	// deletes, with deletes / inserts / re-inserts in the body; slices and strings are ranged while they change
+	var term []string
+	for _, kt := range []struct{ t, a, b, c, d string }{{"string", `"a"`, `"b"`, `"c"`, `""`}, {"int", "1", "2", "3", "0"}, {"float64", "1.5", "2.5", "-0.5", "0"}, {"bool", "true", "false", "true", "false"}, {"byte", "1", "2", "255", "0"}} {
+		lit := fmt.Sprintf("m := map[%s]int{%s: 1, %s: 2}\nm[%s] = 3\nm[%s] = 4\n", kt.t, kt.a, kt.b, kt.c, kt.d)
+		loop := "n := 0\nfor k, v := range m {\n_ = k\nn += v\n%s}\nprintln(n, len(m))\n"
+		for _, pre := range []string{"", "delete(m, " + kt.a + ")\n", "delete(m, " + kt.b + ")\n", "delete(m, " + kt.d + ")\n", "delete(m, " + kt.a + ")\ndelete(m, " + kt.b + ")\n",
+			"delete(m, " + kt.a + ")\ndelete(m, " + kt.b + ")\ndelete(m, " + kt.c + ")\ndelete(m, " + kt.d + ")\n", "delete(m, " + kt.b + ")\nm[" + kt.b + "] = 9\n"} {
+			for _, body := range []string{"", "delete(m, " + kt.b + ")\n", "delete(m, k)\n", "delete(m, " + kt.c + ")\nm[" + kt.c + "] = 5\n", "if n < 50 {\nm[" + kt.a + "] = n\n}\n"} {
+				term = append(term, lit+pre+fmt.Sprintf(loop, body)+pre+fmt.Sprintf(loop, body)+"println(m)\n")
+			}
+		}
+	}
+	term = append(term,
+		"s := []int{1, 2, 3}\nfor i, v := range s {\nif len(s) < 40 {\ns = append(s, v+i)\n}\n}\nprintln(len(s))\n",
+		"s := []int{1, 2, 3, 4}\nfor i := range s {\ns = s[:len(s)-1]\n_ = i\n}\nprintln(len(s))\n",
+		"s := \"a\\xffb\\xc3\"\nn := 0\nfor i, c := range s {\nn += i + int(c)\n}\nprintln(n, []rune(s), []byte(s), string([]rune(s)))\n",
+		"var s []int\nvar m map[string]int\nfor range s {\n}\nfor range m {\n}\ndelete(m, \"a\")\nprintln(len(s), len(m), s, m)\n",
+		"import \"strings\"\nprintln(strings.Repeat(\"ab\", 0), strings.Split(\"\", \"\"), strings.Split(\"abc\", \"\"), strings.Replace(\"aaa\", \"\", \"x\", -1), strings.ReplaceAll(\"aaa\", \"\", \"y\"), strings.Join(strings.Split(\"a,b\", \",\"), \"\"), strings.TrimRight(\"\", \"\"))\n",
+		"s := []int{3, 1, 2}\nt := s[1:1]\nfor i := 0; i < 5; i++ {\nt = append(t, i)\n}\nn := copy(s, s[1:])\nprintln(n, s, t)\n",
+	)
+	for _, src := range term {
+		k := c03Case{Kind: "eval", Src: src}
+		c.Pending(map[string]any{"kind": "eval", "src": src, "note": "a terminating program"})
+		verdict, et := k.run()
+		c.PendingDone()
+		c.Rep.Oracle["no-escape"]++
+		c.Rep.Oracle["terminating-program-returns"]++
+		c.Rep.Count("eval-terminating-program")
+		if verdict == "" && et != "" && et != "<nil>" {
+			verdict = "a valid terminating program failed: " + et
+		}
+		if verdict != "" {
+			c.Rep.Violate(Violation{Kind: "crash", Cut: "no-escape", Input: k, Impl: verdict, Oracle: "returns to the host with its values"})
+			if strings.HasPrefix(verdict, "wedged") {
+				return nil
+			}
+		}
+	}
 	for i, k := range c.c03Cases(n) {
 		verdict, et := k.run()
 		key, _ := json.Marshal(k)
